@@ -198,7 +198,11 @@ def gen_case(rng, tier):
 
 
 def generate(rng, tier):
-    return [gen_case(rng, tier) for _ in range(300 if tier == 'quick' else 6000)]
+    n = 300 if tier == 'quick' else 6000
+    # + whole programs in which macro invocations stand among labels, relative jumps and data (model: `asm` op with `isa`
+    # statements - sizes reserved in the first pass from selection alone, labels behind the invocation placed accordingly)
+    from props import isa_prog as IP
+    return [gen_case(rng, tier) for _ in range(n)] + [IP.gen_case(rng, tier) for _ in range(n // 3)]
 
 
 def program(case, expansions=None):
@@ -219,10 +223,16 @@ def program(case, expansions=None):
 
 
 def to_impl(case):
+    if case.get('kind') == 'isa-program':
+        from props import isa_prog as IP
+        return IP.to_impl(case)
     return impl.compile_case(case['isa'], {'main.asm': program(case)}, start=case['base'])
 
 
 def to_model(case):
+    if case.get('kind') == 'isa-program':
+        from props import isa_prog as IP
+        return IP.to_model(case)
     # first pass with a dummy environment: selection, step count and sizes do not depend on values
     env = [[k, v] for k, v in case['consts'].items()] + [['start', 0], ['after', 0], ['fwd', 0]]
     return [dict(case['model_base'], env=env, addr=0, forms=inv['forms']) for inv in case['invs']]
@@ -244,6 +254,9 @@ def expand_text(case, inv, variant):
 
 
 def judge(case, ir, mrs):
+    if case.get('kind') == 'isa-program':
+        from props import isa_prog as IP
+        return IP.judge(case, ir, mrs, 'C10')
     tags = ['invocations=%d' % len(case['invs'])] + (['case-twin-invocations'] if case.get('twin') else []) + \
         (['overlapping-macro-variants'] if case.get('overlap') else [])
     det = f'asm={program(case)!r} macros={case["isa"]["macros"]}'[:1500]
